@@ -69,7 +69,10 @@ type c11Tree struct {
 func c11Build(x *mc.Exec, malformed bool) (*c11Tree, string) {
 	rec := richRecord()
 	bo := byteOrders[x.All("byte-order", 2)]
-	parts := gen.CR3FromRecord(rec, gen.CanonicalLayout(), bo)
+	lay := gen.CanonicalLayout()
+	// the first directory of each CMT block need not sit right behind its 8-byte header
+	lay.FirstIFD = []int{8, 10, 16, 26, 264}[x.Choose("cmt-first-directory-offset", 5)]
+	parts := gen.CR3FromRecord(rec, lay, bo)
 	if s := c11XpSizes[x.Choose("xpacket-size", len(c11XpSizes))]; s >= 0 {
 		parts.XPacket = pattern(s, 'x')
 	}
